@@ -470,7 +470,7 @@ func genPaths(pkg *packages.Package) {
 	var all []codePath
 	for _, file := range pkg.Syntax {
 		base := filepath.Base(pkg.Fset.Position(file.Pos()).Filename)
-		if base != "fsm.go" && base != "peer.go" {
+		if base != "fsm.go" && base != "peer.go" && base != "server.go" {
 			continue
 		}
 		for _, decl := range file.Decls {
@@ -483,6 +483,8 @@ func genPaths(pkg *packages.Package) {
 			switch {
 			case base == "fsm.go" && rt == "*fsm" && fns[name]:
 			case base == "fsm.go" && rt == "*updateMessageWriter" && name == "WriteUpdate":
+			case base == "server.go" && rt == "*Server" && name == "handleInboundConn":
+				name = "server." + name
 			case base == "peer.go" && rt == "*peer" && peerFns[name]:
 				// the peer manager's helpers are listed under peer.<name> (run / stop exist on both types)
 				name = "peer." + name
